@@ -236,6 +236,10 @@ func (r *Run) runShard(i, n int, asLimit uint64, trace bool, extra []string) (do
 				r.Transitions(m.N)
 			case "traces":
 				r.Traces(m.N)
+			case "state_cap_hit":
+				if m.N > 0 {
+					r.Cap(fmt.Sprintf("%d state insertions were refused because one buffer's state graph exceeded the per-buffer cap (a field of the object under test takes a new value on every call): exploration incomplete", m.N))
+				}
 			case "replay_diverged":
 				// executions of the schedule explorer that could not reproduce their recorded prefix: the code
 				// under test keeps state across executions outside the harness' control; exploration incomplete
